@@ -29,16 +29,27 @@ fn g1_chunkreader_step() {
 	kani::assume(off >= start && off - start <= n as u64);
 	let k = (off - start) as usize;
 	if kani::any() {
+		// DOCUMENT-START: everything in front of the document may go, but the document's first line must keep its
+		// indentation - the spaces right in front of its first token - or the block structure of the chunk differs
+		// from the one in the stream ("  - x\n  - y" would become "- x\n  - y", i.e. the single scalar "x - y").
+		let mut sp = 0;
+		while sp < k && bytes[k - 1 - sp] == b' ' {
+			sp += 1;
+		}
 		cr.trim_to_offset(off);
-		assert!(cr.captured.len() == n - k && cr.captured_start_offset == off, "G1: trim drops exactly the bytes before the offset");
+		let dropped = n - cr.captured.len();
+		assert!(cr.captured.len() <= n && cr.captured_start_offset == start + dropped as u64, "G1: the start offset accounts for exactly the dropped bytes");
+		assert!(dropped <= k, "G1: nothing at or after the offset is dropped");
+		assert!(dropped <= k - sp, "G1: the first line of a document keeps the indentation in front of its first token");
 		let mut j = 0;
 		while j < 5 {
-			if j < n - k {
-				assert!(cr.captured[j] == bytes[k + j], "G1: the kept bytes are the ones from the offset on");
+			if j < n - dropped {
+				assert!(cr.captured[j] == bytes[dropped + j], "G1: the kept bytes are a suffix of the captured bytes");
 			}
 			j += 1;
 		}
 		kani::cover!(k == 2 && n == 5, "G1 trim in the middle");
+		kani::cover!(sp == 2 && k == 3 && n == 5, "G1 trim in front of an indented token");
 	} else {
 		let chunk = cr.take_to_offset(off);
 		assert!(chunk.len() == k && cr.captured.len() == n - k && cr.captured_start_offset == off, "G1: take splits exactly at the offset");
